@@ -185,7 +185,19 @@ func (g *gEval) summary(f *ssa.Function) *gSummary {
 			case *ssa.Return:
 				paths++
 				if len(x.Results) == 1 {
-					rets = append(rets, retT{g.val(x.Results[0], env), guards, lenDep})
+					rv := g.val(x.Results[0], env)
+					if rv.kind == gSlice && strings.HasPrefix(rv.root, "local:") && rv.n > 0 {
+						// a locally built byte array: materialise its contents
+						lt := g.locals(env)
+						comp := make([]gByte, rv.n)
+						for i := int64(0); i < rv.n; i++ {
+							if b, ok := lt[localCell{rv.root, rv.off + i}]; ok {
+								comp[i] = b
+							}
+						}
+						rv = gval{kind: gComp, comp: comp}
+					}
+					rets = append(rets, retT{rv, guards, lenDep})
 				} else {
 					rets = append(rets, retT{gval{why: "multiple results"}, guards, lenDep})
 				}
